@@ -39,7 +39,7 @@ KINDS = collections.OrderedDict([
     ('strptr', ['gchar **', 'char **', 'const gchar **']),
     ('record', ['FooRec *', 'const FooRec *', 'FooUni *', 'FooOpaque *']),
     ('recordpp', ['FooRec **', 'FooOpaque **']),
-    ('object', ['GObject *', 'GCancellable *']),
+    ('object', ['GObject *', 'GCancellable *', 'GFile *', 'GAsyncResult *']),      # classes and interfaces
     ('objectpp', ['GObject **']),
     ('gpointer', ['gpointer', 'gconstpointer', 'void *']),
     ('list', ['GList *', 'GSList *', 'GHashTable *', 'GPtrArray *', 'GArray *', 'GByteArray *', 'const GList *']),
